@@ -36,6 +36,7 @@ type scenario struct {
 	Cost      int    `json:"cost"`                 // rough cost class: 0 = milliseconds, 1 = tens of ms, 2 = seconds
 	StateOnly bool   `json:"state_only,omitempty"` // only the state-level deviations (C04)
 	BlameOnly bool   `json:"blame_only,omitempty"` // of those, only the delta / chi inconsistencies every honest signer must attribute
+	Pool      int    `json:"pool,omitempty"`       // > 0: the sessions run with a worker pool of that size (C05: a panic on a pool goroutine kills the process)
 }
 
 // world is a scenario made concrete: the session description plus what the oracles need.
@@ -84,6 +85,7 @@ func build(sc scenario) (*world, error) {
 }
 
 func build0(sc scenario) (*world, error) {
+	sess.PoolWorkers = sc.Pool // read by the start functions when the handlers are created
 	ids := kmat.IDs[:sc.N]
 	w := &world{sc: sc, ids: ids, msg: msg32}
 	var err error
@@ -206,6 +208,21 @@ func scenarios(check string) []scenario {
 		l = append(l, scenario{Name: "cmp-presign/n3/t1/state-level-blame", Proto: "cmp-presign", N: 3, T: 1, Cost: 2, StateOnly: true, BlameOnly: true})
 	}
 	add("cmp-sign", 2, 1, 2)
+	addPool := func(proto string, n, t, cost int) {
+		l = append(l, scenario{Name: fmt.Sprintf("%s/n%d/t%d/pool2", proto, n, t), Proto: proto, N: n, T: t, Cost: cost, Pool: 2})
+	}
+	if check == "C05" {
+		// the same malformed messages with a 2-worker pool: part of the verification then runs on pool goroutines
+		addPool("doerner-keygen", 2, 1, 1)
+		addPool("cmp-presign-online", 2, 1, 1)
+		if vkit.Thorough() {
+			addPool("doerner-sign", 2, 1, 1)
+			addPool("cmp-sign", 2, 1, 2)
+			addPool("cmp-presign", 2, 1, 2)
+			addPool("cmp-keygen", 2, 1, 2)
+			addPool("cmp-refresh", 2, 1, 2)
+		}
+	}
 	if vkit.Thorough() {
 		if check == "C04" {
 			add("cmp-presign", 3, 1, 2) // n=3: relayed abort notices exist
@@ -268,7 +285,7 @@ func main() {
 	case "C05":
 		res.Rule = "one case = one fresh session in which one malformed message (structural operator at one field path, or one header malformation) is presented to a victim before the honest one; plus the decoder seam: every prefix, byte edits at every offset and all byte strings of length <=2 at every decoder"
 	}
-	res.Assumptions = []string{"single deviation per session; in-order delivery (delivery orders are C07's subject)", "pool=nil: all processing on the calling goroutine"}
+	res.Assumptions = []string{"single deviation per session; in-order delivery (delivery orders are C07's subject)", "pool=nil (all processing on the calling goroutine) except in the scenarios named .../pool2, which run with a 2-worker pool"}
 
 	var dr struct {
 		Decoder  string `json:"decoder"`
@@ -316,7 +333,7 @@ func main() {
 		os.Exit(2)
 	}
 
-	deadline := vkit.Deadline(150*time.Second, 40*time.Minute)
+	deadline := vkit.Deadline(200*time.Second, 40*time.Minute)
 	n := 0
 	outcomes := map[string]int{}
 	perScenario := map[string]int{}
